@@ -4,6 +4,7 @@ import (
 	"bytes"
 	"errors"
 	"fmt"
+	"github.com/hashicorp/go-msgpack/v2/codec"
 	"io"
 	"sort"
 	"strings"
@@ -58,10 +59,32 @@ func EntOf(l *raft.Log) Ent {
 	switch l.Type {
 	case raft.LogConfiguration:
 		e.P = safeCfg(l.Data)
+	case raft.LogAddPeerDeprecated, raft.LogRemovePeerDeprecated:
+		// protocol versions below 3 bootstrap with the old peer-list entry: a configuration in which
+		// every listed peer is a voter whose ID is its address. Recorded as the configuration it is.
+		e.Ty = uint8(raft.LogConfiguration)
+		e.P = peersCfg(l.Data)
 	default:
 		e.P = string(l.Data)
 	}
 	return e
+}
+
+func peersCfg(b []byte) (s string) {
+	defer func() {
+		if recover() != nil {
+			s = "undecodable"
+		}
+	}()
+	var peers [][]byte
+	if err := codec.NewDecoderBytes(b, &codec.MsgpackHandle{}).Decode(&peers); err != nil {
+		return "undecodable"
+	}
+	var c raft.Configuration
+	for _, p := range peers {
+		c.Servers = append(c.Servers, raft.Server{Suffrage: raft.Voter, ID: raft.ServerID(p), Address: raft.ServerAddress(p)})
+	}
+	return CfgString(c)
 }
 
 func safeCfg(b []byte) (s string) {
